@@ -18,10 +18,13 @@ structure Writer.Ok (w : Writer) : Prop where
   le : w.count ≤ 8
   lt : w.cur < 256
   low : ∀ i, i < w.count → w.cur.testBit i = false
+  outlt : ∀ x ∈ w.out, x < 256
 
-theorem Writer.fresh_ok : Writer.fresh.Ok := ⟨by decide, by decide, by decide, by intro i _; simp [Writer.fresh]⟩
-theorem Writer.reset_ok (w : Writer) (out : List Nat) : (w.reset out).Ok :=
-  ⟨by simp [Writer.reset], by simp [Writer.reset], by simp [Writer.reset], by intro i _; simp [Writer.reset]⟩
+theorem Writer.fresh_ok : Writer.fresh.Ok :=
+  ⟨by decide, by decide, by decide, by intro i _; simp [Writer.fresh], by intro x hx; simp [Writer.fresh] at hx⟩
+theorem Writer.reset_ok (w : Writer) (out : List Nat) (hout : ∀ x ∈ out, x < 256) : (w.reset out).Ok :=
+  ⟨by simp [Writer.reset], by simp [Writer.reset], by simp [Writer.reset], by intro i _; simp [Writer.reset],
+   by simpa [Writer.reset] using hout⟩
 @[simp] theorem Writer.fresh_bits : Writer.fresh.bits = [] := by
   simp [Writer.fresh, Writer.bits, Writer.pending, natBits]
 @[simp] theorem Writer.reset_bits (w : Writer) : (w.reset []).bits = [] := by
@@ -73,7 +76,7 @@ theorem writeBit_low (cur c : Nat) (b : Bool) (hlow : ∀ i, i < c + 1 → cur.t
 
 theorem Writer.writeBit_spec (w : Writer) (h : w.Ok) (b : Bool) :
     (w.writeBit b).Ok ∧ (w.writeBit b).bits = w.bits ++ [b] := by
-  obtain ⟨hpos, hle, hlt, hlow⟩ := h
+  obtain ⟨hpos, hle, hlt, hlow, hout⟩ := h
   obtain ⟨c, hc⟩ : ∃ c, w.count = c + 1 := ⟨w.count - 1, by omega⟩
   have hc7 : c ≤ 7 := by omega
   have hlow' : ∀ i, i < c + 1 → w.cur.testBit i = false := by rw [← hc]; exact hlow
@@ -83,7 +86,12 @@ theorem Writer.writeBit_spec (w : Writer) (h : w.Ok) (b : Bool) :
   by_cases h0 : c = 0
   · subst h0
     simp only [if_true]
-    refine ⟨⟨by simp, by simp, by simp, by intro i _; simp⟩, ?_⟩
+    refine ⟨⟨by simp, by simp, by simp, by intro i _; simp, ?_⟩, ?_⟩
+    · intro x hx
+      simp only [List.mem_append, List.mem_singleton] at hx
+      rcases hx with hx | hx
+      · exact hout x hx
+      · rw [hx]; exact writeBit_cur_lt _ _ _ (by omega) hlt
     simp only [Writer.bits, Writer.pending, bytesBits_append, bytesBits_cons, bytesBits_nil, List.append_nil, hc]
     have := hstep
     simp only [Nat.shiftRight_zero, Nat.sub_zero] at this
@@ -91,7 +99,7 @@ theorem Writer.writeBit_spec (w : Writer) (h : w.Ok) (b : Bool) :
     have e0 : natBits (8 - 8) (0 >>> 8) = [] := rfl
     rw [e0, List.append_nil, List.append_assoc]
   · simp only [if_neg h0]
-    refine ⟨⟨by simp; omega, by simp; omega, writeBit_cur_lt _ _ _ hc7 hlt, writeBit_low _ _ _ hlow'⟩, ?_⟩
+    refine ⟨⟨by simp; omega, by simp; omega, writeBit_cur_lt _ _ _ hc7 hlt, writeBit_low _ _ _ hlow', hout⟩, ?_⟩
     simp only [Writer.bits, Writer.pending, hc, hstep, List.append_assoc]
 
 theorem Writer.writeBit_ok (w : Writer) (h : w.Ok) (b : Bool) : (w.writeBit b).Ok := (w.writeBit_spec h b).1
@@ -100,15 +108,28 @@ theorem Writer.writeBit_bits (w : Writer) (h : w.Ok) (b : Bool) : (w.writeBit b)
 
 theorem Writer.writeByte_spec (w : Writer) (h : w.Ok) (b : Nat) (hb : b < 256) :
     (w.writeByte b).Ok ∧ (w.writeByte b).bits = w.bits ++ natBits 8 b := by
-  obtain ⟨hpos, hle, hlt, hlow⟩ := h
+  obtain ⟨hpos, hle, hlt, hlow, hout⟩ := h
   unfold Writer.writeByte
-  refine ⟨⟨hpos, hle, Nat.mod_lt _ (by decide), ?_⟩, ?_⟩
-  · intro i hi
+  refine ⟨⟨hpos, hle, Nat.mod_lt _ (by decide), ?low, ?outlt⟩, ?bits⟩
+  case outlt =>
+    intro x hx
+    dsimp only at hx
+    simp only [List.mem_append, List.mem_singleton] at hx
+    rcases hx with hx | hx
+    · exact hout x hx
+    · rw [hx]
+      have hs : b >>> (8 - w.count) < 2 ^ 8 := by
+        rw [Nat.shiftRight_eq_div_pow]
+        exact Nat.lt_of_le_of_lt (Nat.div_le_self _ _) (by simpa using hb)
+      exact Nat.or_lt_two_pow (n := 8) (by simpa using hlt) hs
+  case low =>
+    intro i hi
     dsimp only at hi
     have e : (256:Nat) = 2 ^ 8 := by decide
     simp only [e, Nat.testBit_mod_two_pow, Nat.testBit_shiftLeft]
     simp; omega
-  · simp only [Writer.bits, Writer.pending, bytesBits_append, bytesBits_cons, bytesBits_nil, List.append_nil,
+  case bits =>
+    simp only [Writer.bits, Writer.pending, bytesBits_append, bytesBits_cons, bytesBits_nil, List.append_nil,
       List.append_assoc]
     congr 1
     -- natBits 8 c ++ pending' = pending ++ natBits 8 b
@@ -284,7 +305,7 @@ def Writer.pad (w : Writer) : Nat := if w.count = 8 then 0 else w.count
 padded with zero bits to the next byte boundary. -/
 theorem Writer.flush_bits (w : Writer) (h : w.Ok) :
     bytesBits w.flush.out = w.bits ++ List.replicate w.pad false := by
-  obtain ⟨hpos, hle, hlt, hlow⟩ := h
+  obtain ⟨hpos, hle, hlt, hlow, hout⟩ := h
   unfold Writer.flush Writer.pad Writer.bits Writer.pending
   by_cases h8 : w.count = 8
   · simp [h8, natBits]
@@ -292,6 +313,16 @@ theorem Writer.flush_bits (w : Writer) (h : w.Ok) :
       List.append_assoc]
     congr 1
     rw [natBits_split8 w.count _ hle, natBits_eq_replicate hlow]
+
+theorem Writer.flush_out_lt (w : Writer) (h : w.Ok) : ∀ x ∈ w.flush.out, x < 256 := by
+  intro x hx
+  unfold Writer.flush at hx
+  split at hx
+  · simp only [List.mem_append, List.mem_singleton] at hx
+    rcases hx with hx | hx
+    · exact h.outlt x hx
+    · rw [hx]; exact h.lt
+  · exact h.outlt x hx
 
 theorem Writer.pad_lt (w : Writer) (h : w.Ok) : w.pad < 8 := by
   unfold Writer.pad; split <;> have := h.le <;> omega
